@@ -12,6 +12,84 @@ UMAX = 2**64 - 1
 UNSAT = 2**63 - 1          # the first capacity that does not fit: capacity + 1 > PTRDIFF_MAX
 
 
+# capacities and sizes around the powers of two at which a narrower integer type, a size class of the
+# allocator or a page boundary could make a difference (round 5: nothing between 401 and 2^63-2 was run)
+PAGES = [255, 256, 257, 4095, 4096, 4097, 5000, 8191, 8192, 8193, 32767, 32768, 32769, 65535, 65536, 65537]
+
+
+def page_cases(th):
+    """Deterministic histories that take one variable to a capacity c in PAGES in every way the code can
+    (capacity constructor, reserve from an owning / an attached / a default state, growing resize, append of
+    c bytes) and then work on and one past that capacity: resize(c), resize(c+1), fill to exactly c bytes and
+    append one more, compaction with a head-room of c-3, prepend through the head-room, reserve(c+1)."""
+    out = []
+    for c in (PAGES if th else [255, 256, 257, 4095, 4096, 4097, 5000, 8193, 32768, 65535, 65536, 65537]):
+        pros = [['newcap %d' % c],
+                ['newdata 616263', 'reserve 0 %d' % c],
+                ['new', 'reserve 0 %d' % c, 'append 0 616263'],
+                ['new', 'attach 0 31323334', 'rmfront 0 1', 'reserve 0 %d' % c],
+                ['new', 'resize 0 %d' % c, 'resize 0 3'],
+                ['newdata 6162', 'append 0 ' + hexs(_bytes(c - 2, 0x31)), 'rmback 0 %d' % (c - 3)]]
+        tails = [['resize 0 %d' % (c + 1), 'append 0 7e'],
+                 ['resize 0 %d' % c, 'append 0 7e'],
+                 ['reserve 0 %d' % (c + 1), 'resize 0 %d' % (c + 1), 'rmfront 0 %d' % c, 'prepend 0 7c'],
+                 ['resize 0 %d' % (c - 1), 'append 0 61', 'append 0 62'],
+                 ['resize 0 %d' % (c - 1), 'rmfront 0 %d' % (c - 3), 'prepend 0 7c', 'resize 0 %d' % c, 'prepend 0 7b'],
+                 ['rmfront 0 1', 'resize 0 %d' % c, 'rmback 0 %d' % (c - 2), 'appendb 0 0', 'prependat 0 1 2'],
+                 ['assign 0 ' + hexs(_bytes(c, 0x41)), 'rmfront 0 %d' % (c - 1), 'assign 0 ' + hexs(_bytes(c + 1, 0x51)), 'rmfront 0 %d' % c]]
+        for i, pro in enumerate(pros):
+            for j, tail in enumerate(tails):
+                if th or c in (4097, 5000, 65537) or (i + j) % 3 == 0:
+                    out.append(pro + tail)
+    return out
+
+
+def mem_available_gb():
+    try:
+        for l in open('/proc/meminfo'):
+            if l.startswith('MemAvailable:'):
+                return int(l.split()[1]) / 1048576.0
+    except OSError:
+        pass
+    return 0.0
+
+
+def huge_cases(th, copies_ok):
+    """Real allocations above 2^31 and 2^32 bytes (case configuration `big`: compact dump).  Untouched pages are
+    not committed, so everything that only moves the window pointers, writes the terminator or copies a few bytes
+    is cheap; the histories marked COPY make the unchanged code copy 4 GiB once (about 3 s, 4.5 GB resident) and
+    are left out when the machine has less than 12 GB available."""
+    B, H = 2**32, 2**31
+    big = lambda ops: ['@big'] + ops
+    out = [
+        # window offsets and sizes above 2^32 inside one allocation: in-place resize, append at the end, removeFront of
+        # more than 2^32 bytes, prepend through a head-room above 2^32, compaction from a start offset above 2^32
+        big(['newcap %d' % (B + 100), 'resize 0 %d' % (B + 5), 'append 0 616263', 'rmfront 0 %d' % (B + 4), 'prepend 0 7c7c',
+             'rmback 0 2', 'resize 0 %d' % (B + 50), 'rmfront 0 %d' % (B + 40), 'append 0 7e', 'clear 0', 'append 0 6162',
+             'free 0', 'append 0 63']),
+        # growing resize from 3 bytes (reallocation, 3 bytes copied), removeBack of exactly 2^32, of more than the size
+        big(['newdata 616263', 'resize 0 %d' % (B + 7), 'rmback 0 %d' % B, 'append 0 7e', 'resize 0 %d' % B, 'rmback 0 %d' % (B + 1),
+             'append 0 7e']),
+        # the same around 2^31 (a signed 32-bit size), and a second variable: swap, assignment from the large one's 2 bytes
+        big(['new', 'reserve 0 %d' % (H + 2), 'resize 0 %d' % H, 'rmfront 0 %d' % (H - 1), 'prepend 0 7c', 'resize 0 %d' % (H + 1),
+             'resize 0 %d' % (H + 2), 'rmfront 0 %d' % H, 'newdata 7172', 'swap 0 1', 'asg 0 1', 'prependb 1 0', 'rmback 1 %d' % H]),
+        # reserve of an attached and of a default Buffer to more than 2^32, reserve below the capacity, assign in place
+        big(['new', 'attach 0 31323334', 'rmfront 0 1', 'reserve 0 %d' % (B + 1), 'reserve 0 %d' % B, 'resize 0 %d' % (B + 1),
+             'assign 0 4142', 'resize 0 %d' % (B + 1), 'rmfront 0 %d' % B, 'append 0 7e']),
+    ]
+    if copies_ok:
+        # COPY: reserve on a window of 2^32+5 bytes (Memory::copy of the whole window into the new block)
+        out.append(big(['newdata 616263', 'reserve 0 %d' % (B + 100), 'resize 0 %d' % (B + 5), 'reserve 0 %d' % (B + 200),
+                        'rmfront 0 %d' % (B + 3), 'append 0 7e']))
+        if th:
+            # COPY: growing resize / append that reallocate a window above 2^32; prepend by the in-place shift
+            out.append(big(['newcap %d' % (B + 5), 'resize 0 %d' % (B + 5), 'append 0 6162', 'rmfront 0 %d' % (B + 5), 'append 0 7e']))
+            out.append(big(['newcap %d' % (B + 100), 'append 0 616263', 'resize 0 %d' % (B + 5), 'rmfront 0 1', 'prepend 0 7c7c',
+                            'rmfront 0 %d' % (B + 4), 'append 0 7e']))
+            out.append(big(['newdata 616263', 'resize 0 %d' % (B + 5), 'prepend 0 7c7c', 'rmfront 0 %d' % (B + 5), 'append 0 7e']))
+    return out
+
+
 def huge(rng, s):
     """sizes whose allocation cannot be satisfied; 2^64-1 is the one where capacity + 1 wraps to 0"""
     return rng.choice([UMAX, UMAX, UMAX, UMAX - 1, UMAX - max(s.size, 1), UMAX - s.cap, 2**63, 2**63 - 1, 2**63 + s.size])
@@ -24,9 +102,14 @@ class Sh:
     def __init__(self, kind='D', start=0, size=0, cap=0):
         self.kind, self.start, self.size, self.cap = kind, start, size, cap
 
+    rlen = 0               # length of the attached range (kind 'A')
+    capof = 0              # kind 'D': the variable whose _capacity field the window points at
+
     def copy(self):
         t = Sh(self.kind, self.start, self.size, self.cap)
         t.dead = self.dead
+        t.rlen = self.rlen
+        t.capof = self.capof
         return t
 
     def own(self, size, cap, start=0):
@@ -110,7 +193,160 @@ class Sh:
     def attach(self, n):
         k = self.kind
         self.kind, self.start, self.size, self.cap = 'A', 0, n, 0
+        self.rlen = n
         return 'attach/' + k
+
+
+
+# ---------------------------------------------------------------------------------------------
+# Sizes the extracted model cannot execute (its allocation is a list of cells): a transcription of
+# BufferSpec.v with the queue in run-length form (`RQ`) and of the window arithmetic of BufferModel.v
+# (the shadow `Sh` above).  It answers the cases marked `@big` (real allocations of more than 2^32 bytes,
+# printed in compact form) and is compared with the extracted spec and model on every case of the
+# `pages` stream and on every other case it can express (see C08.crosscheck), so that it cannot drift.
+# ---------------------------------------------------------------------------------------------
+
+class RQ:
+    """reference byte queue, run-length: a list of bytes objects (known) and ints (n unspecified bytes)"""
+    def __init__(self, segs=()):
+        self.s = [x for x in segs if (len(x) if isinstance(x, bytes) else x) > 0]
+
+    def size(self):
+        return sum(len(x) if isinstance(x, bytes) else x for x in self.s)
+
+    def part(self, off, n):
+        out = []
+        for x in self.s:
+            l = len(x) if isinstance(x, bytes) else x
+            if n <= 0:
+                break
+            if off >= l:
+                off -= l
+                continue
+            k = min(l - off, n)
+            out.append(x[off:off + k] if isinstance(x, bytes) else k)
+            off = 0
+            n -= k
+        return RQ(out)
+
+    def __add__(self, o):
+        return RQ(self.s + o.s)
+
+    def toks(self):
+        n = self.size()
+        def cells(q):
+            r = []
+            for x in q.s:
+                r += ['%02x' % b for b in x] if isinstance(x, bytes) else ['?'] * x
+            return r
+        if n > 16:
+            return cells(self.part(0, 8)) + ['..'] + cells(self.part(n - 8, 8))
+        return cells(self)
+
+
+def compact_line(line):
+    """the compact (`big`) form of a full observation line: windows of more than 16 bytes keep 8 + 8 bytes"""
+    secs = line.split(' | ')
+    if len(secs) < 2:
+        return line
+    t = secs[1].split(' ')
+    out, i = [], 0
+    while i < len(t):
+        if t[i] == '[' and i + 2 < len(t) and t[i + 2] == ':':
+            n = int(t[i + 1])
+            cells = t[i + 3:i + 3 + n]
+            out += t[i:i + 3] + (cells[:8] + ['..'] + cells[-8:] if n > 16 else cells)
+            i += 3 + n
+        else:
+            out.append(t[i]); i += 1
+    secs[1] = ' '.join(out)
+    return ' | '.join(secs)
+
+
+def oracle_lines(case, level, hint_may_fail=True):
+    """expected observation lines of one history from the transcription, in compact form; None when the
+    history uses an operation the transcription does not have (==, source pointers inside the Buffer)"""
+    qs, sh, out = [], [], []
+    unb = lambda h: b'' if h == '-' else bytes.fromhex(h)
+
+    def line():
+        pub = 'G=ok' + ''.join(' [ %d : %sT=ok ]' % (q.size(), ''.join(c + ' ' for c in q.toks())) for q in qs)
+        if level == 'spec':
+            return '- | ' + pub
+        parts = []
+        for x in sh:
+            if x.kind == 'O': parts.append(' [ own=1 cap=%d at=own:%d alloc=%d ]' % (x.cap, x.start, x.cap + 1))
+            elif x.kind == 'A': parts.append(' [ own=0 cap=0 at=reg:%d/%d alloc=- ]' % (x.start, x.rlen))
+            else: parts.append(' [ own=0 cap=0 at=cap:%d alloc=- ]' % x.capof)     # the _capacity field it points at
+        return '- | %s | R=ok live=%d%s' % (pub, sum(1 for x in sh if x.kind == 'O'), ''.join(parts))
+
+    for l in case:
+        if l.startswith('@'):
+            continue
+        t = l.split(' ')
+        o = t[0]
+        ctor = o in ('new', 'newcap', 'newdata', 'newcopy')
+        try:
+            v = int(t[1]) if len(t) > 1 and not ctor else None
+            w = int(t[2]) if o in ('asg', 'prependb', 'appendb', 'swap') else int(t[1]) if o == 'newcopy' else None
+        except ValueError:
+            return None
+        if (v is not None and not 0 <= v < len(qs)) or (w is not None and not 0 <= w < len(qs)):
+            out.append('! not-accepted'); return out
+        if o == 'new':
+            qs.append(RQ()); x = Sh(); x.capof = len(sh); sh.append(x)
+        elif o == 'newcap':
+            n = int(t[1])
+            if n >= UNSAT: out.append('! oom'); return out
+            qs.append(RQ()); x = Sh(); x.own(0, n); sh.append(x)
+        elif o == 'newdata':
+            d = unb(t[1]); qs.append(RQ([d])); x = Sh(); x.own(len(d), len(d)); sh.append(x)
+        elif o == 'newcopy':
+            qs.append(RQ(qs[w].s)); x = Sh(); x.own(sh[w].size, sh[w].size); sh.append(x)
+        elif o == 'attach':
+            d = unb(t[2]); qs[v] = RQ([d]); sh[v].attach(len(d))
+        elif o == 'assign':
+            d = unb(t[2]); qs[v] = RQ([d]); sh[v].assign(len(d))
+        elif o == 'asg':
+            if v != w: qs[v] = RQ(qs[w].s); sh[v].assign(sh[w].size)
+        elif o == 'prepend':
+            d = unb(t[2]); qs[v] = RQ([d]) + qs[v]; sh[v].prepend(len(d))
+        elif o == 'append':
+            d = unb(t[2]); qs[v] = qs[v] + RQ([d]); sh[v].append(len(d))
+        elif o == 'prependb':
+            qs[v] = qs[w] + qs[v]; sh[v].prepend(sh[w].size)
+        elif o == 'appendb':
+            qs[v] = qs[v] + qs[w]; sh[v].append(sh[w].size)
+        elif o == 'resize':
+            n = int(t[2])
+            if n >= UNSAT: out.append('! oom'); return out
+            k = qs[v].size()
+            qs[v] = qs[v].part(0, n) if n <= k else qs[v] + RQ([n - k])
+            sh[v].resize(n)
+        elif o == 'reserve':
+            n = int(t[2])
+            if n >= UNSAT:
+                # the reference keeps the queue (the text does not say what a hint that cannot be followed
+                # does); the model, like the code, ends in a failed allocation
+                if level == 'model' or not hint_may_fail: out.append('! oom'); return out
+                out.append('?oom ' + line()); continue
+            sh[v].reserve(n)
+        elif o in ('rmfront', 'rmback'):
+            n = int(t[2]); k = qs[v].size()
+            qs[v] = RQ() if n >= k else (qs[v].part(n, k - n) if o == 'rmfront' else qs[v].part(0, k - n))
+            reset = sh[v].kind != 'O' and n >= sh[v].size          # bufferStart = bufferEnd = (byte*)&_capacity of this variable
+            sh[v].rmfront(n) if o == 'rmfront' else sh[v].rmback(n)
+            if reset: sh[v].capof = v
+        elif o == 'clear':
+            qs[v] = RQ(); sh[v].clear()
+        elif o == 'free':
+            qs[v] = RQ(); sh[v].free(); sh[v].capof = v
+        elif o == 'swap':
+            qs[v], qs[w] = qs[w], qs[v]; sh[v], sh[w] = sh[w], sh[v]
+        else:
+            return None
+        out.append(line())
+    return out
 
 
 ALPHA = [0x61, 0x62, 0x63, 0x64, 0x65, 0x66, 0x67, 0x68, 0x7a, 0xff, 0x01, 0x80]
@@ -149,7 +385,8 @@ class Gen:
             if self.sh and r.random() < 0.04:
                 self.emit('newcap %d' % huge(r, Sh()), 'ctor/unsat'); self.dead = True
                 return
-            c = self.n(16); s = Sh(); s.own(0, c); self.sh.append(s); self.emit('newcap %d' % c, 'ctor/cap')
+            c = r.choice(PAGES) if r.random() < 0.03 else self.n(16)
+            s = Sh(); s.own(0, c); self.sh.append(s); self.emit('newcap %d' % c, 'ctor/cap')
         elif k < 0.8:
             n = self.n(); s = Sh(); s.own(n, n); self.sh.append(s); self.emit('newdata ' + hexs(data(r, n)), 'ctor/data')
         else:
@@ -176,6 +413,8 @@ class Gen:
                 if goal == 'realloc': return max(s.start, s.cap - s.size) + 1 + r.randrange(3)
         if what in ('resize', 'reserve') and r.random() < 0.05:
             return huge(r, s)
+        if what in ('resize', 'reserve') and r.random() < (0.04 if what == 'reserve' else 0.012):
+            return r.choice(PAGES) + r.choice([0, 0, 1, s.size])
         if what == 'resize':
             goal = r.choice(['realloc', 'inplace', 'compact', 'same', 'zero', 'exact'])
             if goal == 'realloc': return s.cap + 1 + r.randrange(4)
@@ -233,7 +472,7 @@ class Gen:
             if n is None:
                 n = self.n()
             if what not in ('rmfront', 'rmback') and n < UNSAT:
-                n = min(n, 400)
+                n = min(n, 70000 if what in ('resize', 'reserve') else 400)
             if what == 'prepend': self.emit('prepend %d %s' % (v, hexs(data(r, n))), s.prepend(n))
             elif what == 'append': self.emit('append %d %s' % (v, hexs(data(r, n))), s.append(n))
             elif what == 'assign': self.emit('assign %d %s' % (v, hexs(data(r, n))), s.assign(n))
@@ -510,6 +749,17 @@ class C08(Check):
                                '(front offset) x every operation with arguments on and one past each branch condition' % mc))
         out.append(Stream('scope2', small_scope_cases(2, True), exhaustive=True,
                           note='every history of 2 operations over a 36-operation alphabet (incl. removeFront/removeBack(2^64-1)) after a fixed prologue'))
+        out.append(Stream('pages', page_cases(th),
+                          note='one variable taken to a capacity of 255..65537 (around 2^8, 2^12, 2^13, 2^15, 2^16) by the capacity '
+                               'constructor / reserve from an owning, attached, default state / growing resize / append, then resize, '
+                               'append, prepend, compaction, reserve on and one past that capacity'))
+        avail = mem_available_gb()
+        copies_ok = avail >= 12
+        out.append(Stream('huge', huge_cases(th, copies_ok),
+                          note='real allocations of 2^31+k and 2^32+k bytes (untouched pages are not committed), compact dump, expected '
+                               'lines from the Python transcription of BufferSpec / BufferModel (checks/C08.py RQ, Sh); '
+                               + ('including %d histories in which the code copies 4 GiB' % (4 if th else 1) if copies_ok else
+                                  'the histories in which the code copies 4 GiB were LEFT OUT: only %.1f GB available' % avail)))
         if th:
             core = ['prepend 1 61', 'prepend 1 6162636465', 'append 1 -', 'append 1 78797a31', 'resize 1 0', 'resize 1 2', 'resize 1 5',
                     'reserve 1 8', 'rmfront 1 1', 'rmfront 1 9', 'rmback 1 0', 'rmback 1 1', 'assign 1 -', 'assign 1 4142', 'clear 1', 'free 1',
@@ -529,13 +779,61 @@ class C08(Check):
                                     note='%s (part %d/%d)' % (st.note, i + 1, nb)))
         return parts
 
+    HINT_MAY_FAIL = False
+
+    @staticmethod
+    def is_big(case):
+        return bool(case) and case[0].startswith('@') and 'big' in case[0][1:].split()
+
+    def _split_run(self, cases, tag, level, run_extracted):
+        """cases marked `@big` are answered by the transcription, the others by the extracted driver, which the
+        transcription is compared with on every case it can express"""
+        idx_big = [i for i, c in enumerate(cases) if self.is_big(c)]
+        rest = [c for i, c in enumerate(cases) if i not in set(idx_big)]
+        got = run_extracted(rest, tag) if rest else []
+        self.crosscheck(rest, got, level)
+        res, it = [], iter(got)
+        for i, c in enumerate(cases):
+            if self.is_big(c):
+                o = oracle_lines(c, level, self.HINT_MAY_FAIL)
+                if o is None:
+                    raise RuntimeError('C08: a `big` case uses an operation the transcription does not have: %r' % (c,))
+                res.append(o)
+            else:
+                res.append(next(it))
+        return res
+
+    def run_model(self, cases, tag='model'):
+        return self._split_run(cases, tag, 'model', lambda cs, tg: Check.run_model(self, cs, tg))
+
+    def run_spec(self, cases, tag='spec'):
+        return self._split_run(cases, tag, 'spec', lambda cs, tg: Check.run_spec(self, cs, tg))
+
+    def crosscheck(self, cases, got, level):
+        """the Python transcription (used for `big` cases) against the extracted Coq spec / model"""
+        for c, g in zip(cases, got):
+            o = oracle_lines(c, level, self.HINT_MAY_FAIL)
+            if o is None:
+                continue
+            self.crosschecked = getattr(self, 'crosschecked', 0) + 1
+            cg = [compact_line(l) for l in g]
+            ok = len(o) == len(cg) and all((a == b) if level == 'spec' else vf.line_matches(a, b) for a, b in zip(o, cg))
+            if not ok:
+                k = next((i for i, (a, b) in enumerate(zip(o, cg)) if not ((a == b) if level == 'spec' else vf.line_matches(a, b))), min(len(o), len(cg)))
+                raise RuntimeError('C08: Python transcription disagrees with the extracted %s on %r, line %d: `%s` vs `%s`' % (
+                    level, c, k, (o + ['<nothing>'])[k][:300], (cg + ['<nothing>'])[k][:300]))
+
     def run_impl(self, cases, tag='impl'):
         # Histories that end in a request new[] cannot satisfy end the harness process (that is the behaviour under
         # test: `! oom`), about 400 times per run.  The sanitizer's symbolizer costs 150 ms per report and nothing
         # here reads the stack trace, only the report kind: switch it off.
-        env = {'ASAN_OPTIONS': 'detect_leaks=0:abort_on_error=0:allocator_may_return_null=1:max_allocation_size_mb=2048:symbolize=0'}
+        # `big` cases allocate more than 2^32 bytes for real: the allocator's limit is raised for them (the sizes that no
+        # allocator satisfies, >= 2^63-1, still end in `! oom`)
+        bigs = any(self.is_big(c) for c in cases)
+        env = {'ASAN_OPTIONS': 'detect_leaks=0:abort_on_error=0:allocator_may_return_null=1:max_allocation_size_mb=%d:symbolize=0'
+                               % (12000 if bigs else 2048)}
         return vf.run_exe_on_cases(self.exes['impl'], cases, os.path.join(vf.BUILD, self.id, 'run'), tag, is_impl=True,
-                                   per_case_timeout=self.per_case_timeout, env=env)
+                                   per_case_timeout=60 if bigs else self.per_case_timeout, env=env)
 
     def nontrivial(self, case, obs):
         """measured on the implementation's own internal dump: the history must reach at least two of
